@@ -46,6 +46,8 @@ pub struct LayoutD {
     pub features: Vec<(u32, Vec<u16>)>,
     pub lookups: Vec<Lk>,
     pub variations: Vec<VarRec>,
+    /// Some(a): the last lookup's Coverage lies 65536 bytes after lookup a's Coverage
+    pub far_coverage: Option<usize>,
 }
 
 #[derive(Clone, Debug)]
@@ -61,6 +63,8 @@ pub struct GenFont {
     pub kern_pairs: Vec<(u16, u16, i16)>,
     /// vhea + vmtx advance heights; None = no vertical metrics
     pub vadvances: Option<Vec<u16>>,
+    /// a layout table really got two Coverage tables 65536 bytes apart
+    pub far_applied: bool,
     pub bytes: Vec<u8>,
 }
 
@@ -147,14 +151,38 @@ fn write_subtable(lk: &Lk, rng: &mut Rng) -> (u16, Vec<u8>) {
     }
 }
 
-fn write_lookup_list(lookups: &[Lk], rng: &mut Rng) -> Vec<u8> {
-    let mut bodies = Vec::new();
+/// `far`: lay the LAST lookup out so that its Coverage table starts exactly 65536 bytes after the
+/// Coverage table of lookup `far` (zero padding in between): two distinct objects whose offsets
+/// agree in the low 16 bits, as in real fonts with large layout tables.
+fn write_lookup_list(lookups: &[Lk], far: Option<usize>, rng: &mut Rng) -> Vec<u8> {
+    let mut bodies: Vec<Vec<u8>> = Vec::new();
+    let mut cov_offsets: Vec<usize> = Vec::new(); // coverage offset inside the subtable
     for lk in lookups {
         let (ty, sub) = write_subtable(lk, rng);
+        cov_offsets.push(crate::sfnt::be16(&sub, 2).unwrap_or(0) as usize);
         let mut w = W::new();
         w.u16(ty).u16(0).u16(1).u16(8);
         w.bytes(&sub);
         bodies.push(w.b);
+    }
+    if let (Some(a), true) = (far, lookups.len() >= 2) {
+        let b = lookups.len() - 1;
+        if a < b {
+            let d: usize = bodies[a..b].iter().map(|x| x.len()).sum();
+            let c_a = cov_offsets[a];
+            let c_b_old = cov_offsets[b];
+            if c_a < d && 65536 - d + c_a >= c_b_old {
+                let c_b = 65536 - d + c_a;
+                let body = bodies[b].clone();
+                let (head, cov) = body.split_at(8 + c_b_old);
+                let mut w = W::new();
+                w.bytes(head);
+                w.bytes(&vec![0u8; c_b - c_b_old]);
+                w.bytes(cov);
+                w.set_u16(8 + 2, c_b as u16);
+                bodies[b] = w.b;
+            }
+        }
     }
     let mut w = W::new();
     w.u16(lookups.len() as u16);
@@ -294,7 +322,7 @@ fn write_feature_variations(v: &[VarRec]) -> Vec<u8> {
 pub fn write_layout(d: &LayoutD, rng: &mut Rng) -> Vec<u8> {
     let sl = write_script_list(&d.scripts);
     let fl = write_feature_list(&d.features);
-    let ll = write_lookup_list(&d.lookups, rng);
+    let ll = write_lookup_list(&d.lookups, d.far_coverage, rng);
     let mut w = W::new();
     let header = 14;
     let sl_at = header;
@@ -490,6 +518,9 @@ fn gen_layout(rng: &mut Rng, gpos: bool, axes: usize) -> LayoutD {
         };
         d.variations.push(VarRec { conds, subst });
     }
+    if rng.chance(1, 8) && d.lookups.len() >= 2 {
+        d.far_coverage = Some(rng.below(d.lookups.len() - 1));
+    }
     d
 }
 
@@ -517,8 +548,11 @@ pub fn gen_font(rng: &mut Rng) -> GenFont {
     f.sets("hmtx", write_hmtx(&metrics, NUM_GLYPHS as usize));
     let hhea = Hhea { ascender: 800, descender: -200, advance_width_max: 1000, num_h_metrics: NUM_GLYPHS, caret_slope_rise: 1, ..Default::default() };
     f.sets("hhea", hhea.write());
-    f.sets("GSUB", write_layout(&gsub, rng));
-    f.sets("GPOS", write_layout(&gpos, rng));
+    let gsub_bytes = write_layout(&gsub, rng);
+    let gpos_bytes = write_layout(&gpos, rng);
+    let far_applied = gsub_bytes.len() > 65536 || gpos_bytes.len() > 65536;
+    f.sets("GSUB", gsub_bytes);
+    f.sets("GPOS", gpos_bytes);
     let axis_defs: Vec<(u32, i32, i32, i32)> = [(tag("wght"), 100, 400, 900), (tag("wdth"), 50, 100, 200)].iter().take(axes).copied().collect();
     f.sets("fvar", write_fvar(&axis_defs));
     let has_gdef = rng.chance(1, 3);
@@ -546,7 +580,7 @@ pub fn gen_font(rng: &mut Rng) -> GenFont {
         None
     };
     let bytes = f.build();
-    GenFont { gsub, gpos, axes, num_glyphs: NUM_GLYPHS, cmap, advances, has_gdef, kern_pairs, vadvances, bytes }
+    GenFont { gsub, gpos, axes, num_glyphs: NUM_GLYPHS, cmap, advances, has_gdef, kern_pairs, vadvances, far_applied, bytes }
 }
 
 // ---- model --------------------------------------------------------------------------------------
